@@ -713,6 +713,23 @@ def job(a):
                     _get(st, path).append(v)
                     env.structure(st, field + "[]", v, "%s %s: append %r at %s" % (
                         cls, label, v, _path_str(path)))
+        spec = G.MESSAGES[cls]
+        if label == "full:payload" and spec.dict_index is not None:
+            # every subset of the three payload-transparency details absent / null (single deletions are
+            # covered above; the guards that tie them together are only reached by the combinations)
+            import itertools
+            encs = [k for k in ("enc_algo", "enc_key", "enc_serializer") if k in w[spec.dict_index]]
+            for n in (2, 3):
+                for ks in itertools.combinations(encs, n):
+                    for how in ("absent", "null"):
+                        st = _copy(w)
+                        for k in ks:
+                            if how == "absent":
+                                del st[spec.dict_index][k]
+                            else:
+                                st[spec.dict_index][k] = None
+                        env.count("enc_detail_subsets")
+                        env.structure(st, "+".join(ks), None, "%s %s: %s %s" % (cls, label, "+".join(ks), how))
         samples.append({"kind": "mut", "class": cls, "form": label, "paths": len(paths),
                         "values": len(TYPED), "example_path": _path_str(paths[-1])})
     elif kind == "pairs":
